@@ -371,6 +371,58 @@ pub fn run_c15(cfg: &Config) -> i32 {
 	});
 	total.merge(rep);
 
+	// a key bound to several entries whose values nest permuted objects under arrays (of arrays ...) and
+	// objects: the reversed copy (entries reversed at every level) must compare equal, the copy with one
+	// innermost scalar changed must not
+	{
+		fn reverse_deep(v: &RVal) -> RVal {
+			match v {
+				RVal::Arr(a) => RVal::Arr(a.iter().map(reverse_deep).collect()),
+				RVal::Obj(e) => RVal::Obj(e.iter().rev().map(|(k, v)| (k.clone(), reverse_deep(v))).collect()),
+				x => x.clone(),
+			}
+		}
+		fn wrap(shape: usize, inner: RVal) -> RVal {
+			match shape {
+				0 => inner,
+				1 => RVal::Arr(vec![inner]),
+				2 => RVal::Arr(vec![RVal::Arr(vec![inner])]),
+				3 => RVal::Arr(vec![RVal::Arr(vec![RVal::Arr(vec![inner])])]),
+				4 => RVal::Obj(vec![("z".into(), RVal::Arr(vec![inner]))]),
+				5 => RVal::Obj(vec![("z".into(), RVal::Arr(vec![RVal::Arr(vec![inner])]))]),
+				6 => RVal::Arr(vec![RVal::Null, RVal::Arr(vec![RVal::Num("0".into()), inner]), RVal::Str("t".into())]),
+				_ => RVal::Arr(vec![RVal::Obj(vec![("w".into(), RVal::Arr(vec![inner.clone()])), ("v".into(), inner)])]),
+			}
+		}
+		let mut rep = Report::new();
+		let leaf = |x: &str| RVal::Obj(vec![("x".into(), RVal::Num(x.into())), ("y".into(), RVal::Num("2".into())), ("x".into(), RVal::Str("s".into()))]);
+		for shape in 0..8usize {
+			for dups in 1..=3usize {
+				for other_shape in 0..8usize {
+					if (cfg!(miri) || cfg.san) && (shape * 3 + other_shape + dups) % 8 != 0 {
+						continue;
+					}
+					let mut e: Vec<(String, RVal)> = vec![("a".into(), wrap(shape, leaf("1")))];
+					for d in 1..dups {
+						e.push(("a".into(), if d == 1 { wrap(other_shape, leaf("1")) } else { RVal::Num("5".into()) }));
+					}
+					e.push(("b".into(), RVal::Null));
+					let a = RVal::Obj(e.clone());
+					let b = reverse_deep(&a);
+					let mut e2 = e.clone();
+					e2[0].1 = wrap(shape, leaf("3"));
+					let c = reverse_deep(&RVal::Obj(e2));
+					for (x, y) in [(&a, &b), (&b, &a), (&a, &c), (&c, &a)] {
+						let want = nf(x) == nf(y);
+						c15_pair(&mut rep, "duplicate-keys-with-nested-permuted-values", x, y, &from_rval(x), &from_rval_push(y), want, true);
+						rep.distinct_by_construction(1);
+					}
+				}
+			}
+		}
+		total.merge(rep);
+	}
+
 	// wide objects (beyond any inline buffer) in which one side repeats a key and the other does not
 	let rep = parallel(cfg.threads, if cfg!(miri) { 2 } else { 16 }, |i| {
 		let mut rep = Report::new();
@@ -771,6 +823,44 @@ fn build_via(how: usize, e: &[(String, Value)], rng: &mut Rng) -> Object {
 	}
 }
 
+/// All pairs (laws of `c14_pair`) and all triples (transitivity) over a pool of values.
+fn order_pool(fam: &str, rvals: &[RVal]) -> Report {
+	let vals: Vec<Value> = rvals.iter().map(from_rval).collect();
+	let n = vals.len();
+	let mut rep = Report::new();
+	// a panic here is reported by the pairwise pass below, with the pair
+	let m = guard(|| {
+		let mut m = vec![Ordering::Equal; n * n];
+		for i in 0..n {
+			for j in 0..n {
+				m[i * n + j] = vals[i].cmp(&vals[j]);
+			}
+		}
+		m
+	})
+	.ok();
+	for i in 0..n {
+		for j in 0..n {
+			let desc = || json!({"sub": "cmp-pair", "a": doc_of(&rvals[i]), "b": doc_of(&rvals[j])});
+			c14_pair(&mut rep, fam, &vals[i], &vals[j], rvals[i] == rvals[j], &desc);
+			let Some(m) = &m else { continue };
+			let le = |x: usize, y: usize| m[x * n + y] != Ordering::Greater;
+			for k in 0..n {
+				rep.count("triples_checked", 1);
+				if le(i, j) && le(j, k) && !le(i, k) {
+					rep.violation(
+						"C14:not-transitive",
+						format!("a <= b and b <= c but a > c for a={}, b={}, c={}", doc_of(&rvals[i]), doc_of(&rvals[j]), doc_of(&rvals[k])),
+						json!({"sub": "cmp-triple", "a": doc_of(&rvals[i]), "b": doc_of(&rvals[j]), "c": doc_of(&rvals[k])}),
+					);
+				}
+			}
+		}
+	}
+	rep.distinct_by_construction((n * n) as u64);
+	rep
+}
+
 fn ord_name(o: Ordering) -> &'static str {
 	match o {
 		Ordering::Less => "Less",
@@ -1109,34 +1199,35 @@ pub fn run_c14(cfg: &Config) -> i32 {
 			rvals.push(RVal::Obj(vec![("a".to_string(), RVal::Null), (k.to_string(), RVal::Num(i.to_string()))]));
 			rvals.push(RVal::Str(k.to_string()));
 		}
-		let vals: Vec<Value> = rvals.iter().map(from_rval).collect();
-		let n = vals.len();
-		let mut m = vec![Ordering::Equal; n * n];
-		for i in 0..n {
-			for j in 0..n {
-				m[i * n + j] = vals[i].cmp(&vals[j]);
-			}
-		}
-		let mut rep = Report::new();
-		let le = |x: usize, y: usize| m[x * n + y] != Ordering::Greater;
-		for i in 0..n {
-			for j in 0..n {
-				let desc = || json!({"sub": "cmp-pair", "a": doc_of(&rvals[i]), "b": doc_of(&rvals[j])});
-				c14_pair(&mut rep, "key-pool-order-family", &vals[i], &vals[j], rvals[i] == rvals[j], &desc);
-				for k in 0..n {
-					rep.count("triples_checked", 1);
-					if le(i, j) && le(j, k) && !le(i, k) {
-						rep.violation(
-							"C14:not-transitive",
-							format!("a <= b and b <= c but a > c for a={}, b={}, c={}", doc_of(&rvals[i]), doc_of(&rvals[j]), doc_of(&rvals[k])),
-							json!({"sub": "cmp-triple", "a": doc_of(&rvals[i]), "b": doc_of(&rvals[j]), "c": doc_of(&rvals[k])}),
-						);
+		total.merge(order_pool("key-pool-order-family", &rvals));
+
+		// (b'') the same over number spellings: same number written differently (exponent marker case,
+		//       trailing zeros, signs of zero and of the exponent), neighbours around 2^53, the i64 / u64
+		//       limits and beyond the double range; bare, in an array and as an entry value
+		let nums = [
+			"0", "-0", "0.0", "0e0", "0E0", "-0.0", "1", "1.0", "1.00", "1e0", "1E0", "10", "9", "-1", "-10", "-9", "1e5", "1E5", "1e+5", "1E+5", "100000", "1.5e3", "1.5E3", "1500", "2", "12", "1e-5", "1E-5",
+			"9007199254740992", "9007199254740993", "9007199254740994", "9007199254740993.0", "9223372036854775806", "9223372036854775807", "9223372036854775808", "9223372036854775809", "-9223372036854775808", "-9223372036854775809",
+			"18446744073709551615", "18446744073709551616", "18446744073709551617", "1e400", "1E400", "2e400", "1e-400", "2e-400", "123456789012345678901234567890", "123456789012345678901234567891",
+		];
+		let mut nums: Vec<String> = nums.iter().map(|x| x.to_string()).collect();
+		// both signs of the neighbourhoods where integers stop being exact as doubles / as i64 / as u64,
+		// each as an integer, with a fraction and with an exponent
+		for base in [9007199254740992u128, 9223372036854775806, 18446744073709551614] {
+			for sign in ["", "-"] {
+				for x in [format!("{}", base), format!("{}", base + 1), format!("{}", base + 2), format!("{}.0", base), format!("{}.5", base), format!("{}.0", base + 1), format!("{}e0", base)] {
+					let t = format!("{}{}", sign, x);
+					if !nums.contains(&t) {
+						nums.push(t);
 					}
 				}
 			}
 		}
-		rep.distinct_by_construction((n * n) as u64);
-		total.merge(rep);
+		let mut rvals: Vec<RVal> = nums.iter().map(|x| RVal::Num(x.to_string())).collect();
+		for x in nums.iter().step_by(3) {
+			rvals.push(RVal::Arr(vec![RVal::Num(x.to_string())]));
+			rvals.push(RVal::Obj(vec![("n".to_string(), RVal::Num(x.to_string()))]));
+		}
+		total.merge(order_pool("number-pool-order-family", &rvals));
 	}
 
 	// (c) random triples of related values
